@@ -116,7 +116,10 @@ pub fn check_conn(o: &Outcome, p: &Plan, stats: &mut HashMap<&'static str, u64>)
     // admitted?
     if !o.mgr().any(|(_, _, s)| s.peers.iter().any(|x| &x.addr == a)) { *stats.entry("not_admitted").or_default() += 1; return None; }
     let kill = evs.iter().find_map(|e| match &e.kind { EvKind::Mgr { kind, text, after, .. } if *kind == "KillReq" => Some((e.ms, e.seq, text.clone(), after.clone())), _ => None });
-    let end = kill.as_ref().map(|k| k.0).unwrap_or(o.end_ms);
+    // the connection ends when the client closes the socket; the manager may learn about it a
+    // little later (it can be busy joining a tracker task)
+    let saw_close = evs.iter().find(|e| matches!(e.kind, EvKind::PeerSawClose)).map(|e| e.ms);
+    let end = match (saw_close, kill.as_ref().map(|k| k.0)) { (Some(a), Some(b)) => a.min(b), (Some(a), None) => a, (None, Some(b)) => b, (None, None) => o.end_ms };
     // real (non keep-alive, known) messages the peer actually wrote, with their times
     let arrivals: Vec<u64> = evs.iter().filter_map(|e| match &e.kind { EvKind::PeerSent { msg: Some(m), .. } if !matches!(m, Msg::KeepAlive) => Some(e.ms), _ => None }).collect();
     let timeout_kill = kill.as_ref().map(|k| k.2.to_lowercase().contains("keep alive")).unwrap_or(false);
@@ -127,6 +130,7 @@ pub fn check_conn(o: &Outcome, p: &Plan, stats: &mut HashMap<&'static str, u64>)
         if timeout_kill {
             let (ms, seq, _, _) = kill.as_ref().unwrap();
             let before: Vec<&u64> = arrivals.iter().filter(|t| **t <= *ms).collect();
+            let _ = end;
             return Some(Finding { sig: "C20:live-connection-closed-for-inactivity".into(), what: format!("{} sends a real message every {} ms (last ones at {:?}) but was closed with a keep-alive timeout at t={} ms (task started at {})", a, p.period, before.iter().rev().take(3).collect::<Vec<_>>(), ms, t0), at_seq: *seq });
         }
     }
@@ -141,8 +145,11 @@ pub fn check_conn(o: &Outcome, p: &Plan, stats: &mut HashMap<&'static str, u64>)
             match &kill {
                 None => return Some(Finding { sig: "C20:silent-connection-not-closed".into(), what: format!("{}: last real message at t={} ms, still connected at t={} ms", a, silent_from, o.end_ms), at_seq: u64::MAX }),
                 Some((ms, seq, text, after)) => {
-                    if *ms > silent_from + 3 * TICK {
-                        return Some(Finding { sig: "C20:silent-connection-closed-too-late".into(), what: format!("{}: last real message at t={} ms, closed at t={} ms (> 360 s later; reason {})", a, silent_from, ms, text), at_seq: *seq });
+                    if end > silent_from + 3 * TICK {
+                        return Some(Finding { sig: "C20:silent-connection-closed-too-late".into(), what: format!("{}: last real message at t={} ms, closed at t={} ms (> 360 s later; manager informed at {} ms; reason {})", a, silent_from, end, ms, text), at_seq: *seq });
+                    }
+                    if *ms > end + 10_000 {
+                        return Some(Finding { sig: "C20:peer-state-released-late".into(), what: format!("{}: connection closed at t={} ms but the manager dropped its state only at t={} ms", a, end, ms), at_seq: *seq });
                     }
                     if after.peers.iter().any(|x| &x.addr == a) {
                         return Some(Finding { sig: "C20:peer-state-not-released".into(), what: format!("{} still in the manager's table after being dropped", a), at_seq: *seq });
@@ -160,7 +167,12 @@ pub fn check_conn(o: &Outcome, p: &Plan, stats: &mut HashMap<&'static str, u64>)
     // a tick that coincides with the end of the connection may or may not have produced a frame
     let coincide = (end - t0) % TICK == 0 && end > t0 && !timeout_kill;
     *stats.entry("keepalive_frames_checked").or_default() += sent.len() as u64;
-    let ok = sent == expected || (coincide && sent.len() == expected.len() + 1 && sent[..expected.len()] == expected[..]);
+    // one frame per tick; a frame may be written a little after its tick when the connection task
+    // is waiting for the manager at that moment (not more than 10 s: nothing in the system takes longer)
+    let near = |a: &[u64], b: &[u64]| a.len() == b.len() && a.iter().zip(b.iter()).all(|(x, y)| *x >= *y && *x <= *y + 10_000);
+    let ok = near(&sent, &expected) || (coincide && sent.len() == expected.len() + 1 && near(&sent[..expected.len()], &expected))
+        // a tick that falls inside the last 10 s before the end may still be pending
+        || (expected.last().map(|t| *t + 10_000 > end).unwrap_or(false) && sent.len() + 1 == expected.len() && near(&sent, &expected[..sent.len()]));
     if !ok {
         return Some(Finding { sig: "C20:keepalive-emission".into(), what: format!("{}: task started at t={} ms, open until t={} ms; KeepAlive frames written at {:?}, expected at {:?}", a, t0, end, sent, expected), at_seq: kill.as_ref().map(|k| k.1).unwrap_or(u64::MAX) });
     }
@@ -271,7 +283,8 @@ pub fn run(ctx: &Ctx) -> Report {
             let sa = addr(sc.plans.len());
             let last_from_seeder = o.events.iter().filter(|e| e.addr == sa && matches!(e.kind, EvKind::PeerSent { .. })).map(|e| e.ms).last();
             if let Some(m) = last_from_seeder {
-                let kill = o.mgr().find(|(e, kind, _)| *kind == "KillReq" && e.addr == sa).map(|(e, _, _)| e.ms);
+                // closed = the peer saw the client close its socket (the manager may be told a little later)
+                let kill = o.events.iter().find(|e| e.addr == sa && matches!(e.kind, EvKind::PeerSawClose)).map(|e| e.ms).or_else(|| o.mgr().find(|(e, kind, _)| *kind == "KillReq" && e.addr == sa).map(|(e, _, _)| e.ms));
                 if o.end_ms > m + 3 * TICK + 1_000 {
                     stats.insert("silent_seeders_judged", 1);
                     match kill {
@@ -292,4 +305,12 @@ pub fn run(ctx: &Ctx) -> Report {
         }
     }
     rep
+}
+
+/// Debug helper: run one scenario seed and print the events in a time window.
+pub fn debug_one(ctx: &Ctx, seed: u64, from_ms: u64, to_ms: u64) {
+    let mut sr = Rng::new(seed);
+    let sc = gen_scenario(&mut sr, seed);
+    let o = run_sim(sc.cfg, &ctx.scratch, 120);
+    for e in o.events.iter().filter(|e| e.ms >= from_ms && e.ms <= to_ms) { println!("{}", fmt_ev(e).chars().take(300).collect::<String>()); }
 }
